@@ -41,7 +41,7 @@ CHECKS = {
     "C15": dict(
         technique="Coq proof (counter arithmetic, one line per piece, success only through good traces) + stdout progress-line oracle + trace validation",
         text="C15_counters_sum, C15_one_line_per_piece, C15_success_only_via_good_trace; the progress lines of each real run are parsed and compared with the piece count of the distinct torrents, the per-piece outcomes and the export tree afterwards (duplicate / permuted torrent lists included).",
-        ref="DESIGN.md section 5 C15", note="'Every piece evaluated exactly once' is C05; 'available => succeeded' relies on C02 (checked by oracle here)."),
+        ref="DESIGN.md section 5 C15", note="'Every piece evaluated exactly once' is C05; 'available => succeeded' relies on C02 (checked by oracle here). Known finding K3 (duplicate file paths in one torrent: succeeded pieces that do not verify) is listed in known_findings.json."),
     "C16": dict(
         technique="Coq proof (bad path in any position => Fault with no mutating op; no piece program panics; loader total) + child-process runs (bad paths, no/unloadable torrents, degenerate torrents, CLI binary)",
         text="Partial: C16_bad_path_no_effect, C16_piece_never_panics, C16_load_total are theorems of the model; allocation failure is runtime (known finding K2). Bad paths of every kind in every position, runs without loadable torrents, degenerate loadable torrents and the CLI binary are exercised as child processes. WHOLE RUN (SystemModel/SystemProofs/GlueProofs): the scanning phase is a transition system (pool of piece programs over one shared file system; steps = any program's next action, failed operations, arbitrary read answers, a write cut short); C16_whole_run_no_panic; C16_loaded_torrent_ok ties the loader to the premises of the layout/work-list theorems.",
